@@ -208,8 +208,11 @@ func (g *c14Gen) scalar(name string) interface{} {
 	if k := g.maybeDefect("wrong-kind"); k != "" && name != "Any" {
 		g.applied = "wrong-kind"
 		switch name {
-		case "Int", "Float":
-			return []interface{}{true, map[string]interface{}{}, []interface{}{}, "abc"}[r.Intn(4)]
+		case "Int":
+			// besides other kinds: strings and numbers-as-text that only a lenient parser (base prefixes, digit separators) takes for an integer
+			return []interface{}{true, map[string]interface{}{}, []interface{}{}, "abc", "0x1F", "0b101", "0o17", "1_000", json.Number("0x10"), "1.5", " 7"}[r.Intn(11)]
+		case "Float":
+			return []interface{}{true, map[string]interface{}{}, []interface{}{}, "abc", "1,5", "1.5.2", "--1"}[r.Intn(7)]
 		case "String":
 			return []interface{}{1, 2.5, true, map[string]interface{}{}}[r.Intn(4)]
 		case "Boolean":
@@ -232,7 +235,7 @@ func (g *c14Gen) scalar(name string) interface{} {
 		case 4:
 			return r.Intn(100) - 50
 		}
-		return 0
+		return r.Pick("0", "15", "-3") // decimal text: judged by the predicate whichever way the library decides
 	case "Float":
 		switch r.Intn(5) {
 		case 0:
@@ -424,6 +427,9 @@ func c14Run(x *core.Ctx) {
 				if !supplied && (i/5)%6 == 1 && strings.Contains(ts, "[") {
 					c.Set("default", "single") // a single value written where a list is declared
 				}
+				if !supplied && (i/5)%6 == 5 && strings.HasPrefix(ts, "[") {
+					c.Set("default", "empty") // an empty list literal: the value is an empty list, not null
+				}
 				if b := strings.Trim(ts, "[]!"); !supplied && (i/5)%6 == 4 && (b == "ID" || b == "Float") {
 					c.Set("default", "huge") // an integer literal beyond 64 bits: judged only if validation accepts the operation
 				}
@@ -580,6 +586,9 @@ func c14Check(x *core.Ctx, c *core.Case) {
 		if c.Get("default") == "single" {
 			decl = "$v: " + ts + " = " + d
 		}
+		if c.Get("default") == "empty" {
+			decl = "$v: " + ts + " = []"
+		}
 		if c.Get("default") == "huge" {
 			decl = "$v: " + ts + " = " + strings.Repeat("[", depth) + "99999999999999999999" + strings.Repeat("]", depth)
 		}
@@ -668,6 +677,12 @@ func c14Check(x *core.Ctx, c *core.Case) {
 		}
 		if ok, why := conforms(schema, vd.Type, got, "$v"); !ok {
 			x.Violate("nonconforming-output(default:"+wrapPattern(ts)+")", why, "a value of "+ts)
+		}
+		if c.Get("default") == "empty" {
+			x.Count("empty_list_defaults_applied")
+			if rv := reflect.ValueOf(got); got == nil || rv.Kind() != reflect.Slice || rv.Len() != 0 {
+				x.Violate("default-not-applied(empty-list)", fmt.Sprintf("%#v", got), "an empty list, the declared default")
+			}
 		}
 	case !isSupplied:
 		if present && got != nil {
